@@ -10,7 +10,7 @@ import struct
 from ..core import Ctx
 from ..match import arg
 from ..model import NOCONST, AnalysisError, ClassInfo, FuncInfo, chain, const_value, norm, strip_cast, walk_no_nested
-from .c02_packers import Mini, MiniRaised, MiniUndecided, Opaque, struct_hooks
+from .c02_packers import Mini, MiniRaised, MiniUndecided, Opaque, _Brk, _Cont, _Obj, _Ret, struct_hooks
 from ..terms import Const, Field, T, TermEval, Undecided, is_const, simplify, struct_arity
 
 LEVEL = "other"
@@ -19,14 +19,21 @@ EXPLANATION = (
     "over the instance fields, flattened by packer arity (bits -> 8 values, multi-value structs -> one tuple value), bound "
     "to from_unpack_list's parameters and pushed through the constructor; every field read by the encoder must come back "
     "as itself (rewrites: idempotent % 65536, chunks(join(xs), n) = xs, struct-strided chunks; finite enumeration for bit "
-    "selectors and the documented connection-type domain); the format sequence of to_pack_list equals format_list. Every "
+    "selectors and the documented connection-type domain); the format sequence of to_pack_list equals format_list. Where the three methods "
+    "are not straight-line code (locals built in loops, result objects, helper decisions, partial application, **fields, itertools pipelines) "
+    "they are INTERPRETED over the same terms: control flow and containers are plain Python, only operations on field / wire values build terms, "
+    "and anything that would need the value of a term is undecided. Every "
     "VariablePayload definition has names/format arity agreement, raw only last, registered formats, paired hooks. Every "
-    "Packer is abstractly run path by path: the bytes read by unpack tile [offset, returned offset) exactly and pack writes the same "
+    "Packer is abstractly run path by path: the bytes read by unpack tile [offset, returned offset) exactly, every returning path delivers "
+    "exactly the value(s) the format stands for to the unpack list (one; eight for bits), every mention of the buffer is an accounted use, "
+    "small result objects (NamedTuple / dataclass / record class / tuple / slice) are followed part by part, and pack writes the same "
     "layout (same length format and unit; wire values are named by the read they come from, not by the local that holds them; "
     "helpers that receive the buffer are run in a frame of their own, scans of / lookups in constant tables are taken entry by entry, "
     "the bytes pack returns are followed through locals, joins, part lists, with/try blocks and loops); "
     "per address tag - the first wire byte is assumed to be that tag and the conditions on it are evaluated - the decoder reads the "
     "layout and uses the inet_* partner of the pack branch that writes the tag. "
+    "ListOf framing that is not the reviewed counting loop is decided by interpreting __init__/pack/unpack with a stand-in item packer for every "
+    "count a one-byte prefix can hold. "
     "The Serializer's registration table is what its constructor computes (interpreted), and every pack()/unpack() its coding methods "
     "make takes the packer from that per-instance table only (no module-level / stale copy of resolved packers). "
     "Registered format names agree with the grammar their name spells and with the byte counts of "
@@ -83,8 +90,9 @@ def serializer_table(ctx: Ctx) -> dict[str, ast.Call]:
             return None
         if name is not None and base is None:
             k = ctx.repo.resolve_class_expr(init.module, ast.parse(name, mode="eval").body) if re.fullmatch(r"[A-Za-z_][\w.]*", name) else None
-            if k is not None:
+            if k is not None and any(c.name == "Packer" for c in k.mro()):
                 return _Made(k.name, list(args), dict(kwargs))
+            # (other small classes - a NamedTuple spec of a table the constructor is built from - are constructed by the interpreter itself)
         return NotImplemented
     table = None
     try:
@@ -118,20 +126,32 @@ def _table_is_interpreted(ctx: Ctx) -> bool:
 
 
 def extra_packers(ctx: Ctx) -> dict[str, tuple[str, ast.Call]]:
+    from ..match import resolve
     out = {}
     for m, fi, c in ctx.repo.callers_of_name("add_packer"):
         if fi is None or fi.qualname == "Serializer.add_packer":
             continue
-        name = const_value(arg(c, 0))
+        ne, pe = arg(c, 0, "name"), arg(c, 1, "packer")
+        if ne is None or pe is None:
+            continue
+        ne = resolve(fi, ne)                      # a local alias of the name / a module-level or class-level constant
+        name = const_value(ne)
+        if not isinstance(name, str):
+            name = ctx.repo.resolve_const(fi.module, ne, fi.cls)
+        packer = strip_cast(resolve(fi, pe))
         if isinstance(name, str):
-            out[name] = (fi.cls.name if fi.cls else "?", strip_cast(arg(c, 1)))
+            out[name] = (fi.cls.name if fi.cls else "?", packer)
+        else:
+            # registered under a computed name (a loop over a table of packers): which names exist is then not known from this call -
+            # recorded as "any name", so that no format is reported as unregistered on the strength of an incomplete list
+            out["*"] = (fi.cls.name if fi.cls else "?", packer)
     return out
 
 
 def packer_arity(table: dict[str, ast.Call], fmt: str) -> int | str:
     """Number of python values one format consumes in to_pack_list / yields in from_unpack_list."""
     c = table.get(fmt)
-    if c is None:
+    if not isinstance(c, ast.Call):
         return 1
     if chain(c.func) == "Bits":
         return 8
@@ -995,6 +1015,489 @@ def enumerate_equal(ctx: Ctx, cls: ClassInfo, t: T, want_field: str, wire_terms:
     return None
 
 
+# ------------------------------------------------------------------------------------------ TERM rule: interpreted fallback
+class _Symbolic(MiniUndecided):
+    """An operation needs the value of a wire term as a concrete Python object (its length, its elements, its integer value)."""
+
+
+class _TV:
+    """
+    A term as a run-time value of the mini interpreter: the payload code is INTERPRETED (control flow, locals, helper calls, result objects,
+    tables, itertools pipelines are all just Python), and only the operations applied to field / wire values build terms - the same terms
+    the straight-line evaluator builds.  Everything else on a term value is undecided, never guessed.
+    """
+    __slots__ = ("t",)
+
+    def __init__(self, t: T) -> None:
+        self.t = t
+
+    def __repr__(self) -> str:
+        return f"<{self.t}>"
+
+    def __bool__(self) -> bool:
+        raise MiniUndecided(f"the payload code branches on the value of {self.t}")
+
+    def __iter__(self):
+        raise _Symbolic(f"iteration over {self.t}")
+
+    def __len__(self) -> int:
+        raise _Symbolic(f"length of {self.t}")
+
+    def __index__(self) -> int:
+        raise _Symbolic(f"integer value of {self.t}")
+
+    def __mod__(self, o):
+        return _wrap(simplify(T("mod", (self.t, _term(o)))))
+
+    def __add__(self, o):
+        return _wrap(simplify(T("add", (self.t, _term(o)))))
+
+    def __radd__(self, o):
+        return _wrap(simplify(T("add", (_term(o), self.t))))
+
+    def _mask(self, o):
+        if isinstance(o, int) and not isinstance(o, bool) and o > 0 and (o & (o + 1)) == 0:
+            return _wrap(simplify(T("mod", (self.t, Const(o + 1)))))          # x & (2**k - 1) == x % 2**k for every int x
+        raise MiniUndecided(f"`&` on {self.t}")
+
+    __and__ = __rand__ = _mask
+
+    def __getitem__(self, k):
+        if isinstance(k, slice):
+            if k.step is not None:
+                raise MiniUndecided(f"stepped slice of {self.t}")
+            return _wrap(simplify(T("slice", (self.t, _term(k.start), _term(k.stop)))))
+        return _wrap(simplify(T("index", (self.t, _term(k)))))
+
+    def _no(self, *_a):
+        raise MiniUndecided(f"arithmetic on {self.t}")
+
+    __sub__ = __rsub__ = __mul__ = __rmul__ = __floordiv__ = __rfloordiv__ = __truediv__ = __or__ = __ror__ = __xor__ = __rxor__ = _no
+    __lshift__ = __rlshift__ = __rshift__ = __rrshift__ = __rmod__ = __neg__ = __invert__ = __pow__ = __lt__ = __le__ = __gt__ = __ge__ = _no
+    __contains__ = __call__ = _no
+
+
+def _term(v) -> T:
+    """the term a run-time value of the interpreter denotes"""
+    if isinstance(v, _TV):
+        return v.t
+    if isinstance(v, (bool, int, str, bytes, float, type(None))):
+        return Const(v)
+    if isinstance(v, tuple):
+        return T("tuple", tuple(_term(x) for x in v))
+    if isinstance(v, list):
+        return T("list", tuple(_term(x) for x in v))
+    raise MiniUndecided(f"value {v!r} has no wire term")
+
+
+def _wrap(t: T):
+    """run-time value for a term: constants and tuple / list terms become the Python objects they denote (so the code can take them apart)"""
+    if is_const(t) and isinstance(t.args[0], (bool, int, str, bytes, float, type(None))):
+        return t.args[0]
+    if t.op == "tuple":
+        return tuple(_wrap(a) for a in t.args)
+    if t.op == "list":
+        return [_wrap(a) for a in t.args]
+    return _TV(t)
+
+
+def _has_tv(v, depth: int = 0) -> bool:
+    if isinstance(v, _TV):
+        return True
+    if depth < 4 and isinstance(v, (tuple, list)):
+        return any(_has_tv(x, depth + 1) for x in v)
+    if depth < 4 and isinstance(v, dict):
+        return any(_has_tv(x, depth + 1) for x in v.values())
+    return False
+
+
+class _Ctor:
+    """what from_unpack_list returns: one construction of a payload class"""
+
+    def __init__(self, cls: ClassInfo, via_cls: bool, args: list, kwargs: dict, lineno: int) -> None:
+        self.cls, self.via_cls, self.args, self.kwargs, self.lineno = cls, via_cls, args, kwargs, lineno
+
+
+class _ClsToken(Opaque):
+    """a payload class as a value (the `cls` a classmethod receives, or the class named in the code): calling it constructs that class"""
+
+    def __init__(self, cls: ClassInfo, via_cls: bool = True) -> None:
+        super().__init__(f"class {cls.name}")
+        self.cls, self.via_cls = cls, via_cls
+
+    def __call__(self, *a, **k):
+        return _Ctor(self.cls, self.via_cls, list(a), dict(k), 0)
+
+
+_CONNECTION_TYPES = ("unknown", "public", "symmetric-NAT")        # the documented domain of connection_type
+
+
+def _encoder_arity(repo) -> int | None:
+    """n when encode_connection_type returns an n-tuple for every documented connection type (evaluated, nothing of /repo is run)"""
+    cached = repo.__dict__.get("_c02_encoder_arity", NOCONST)
+    if cached is not NOCONST:
+        return cached
+    n = None
+    try:
+        enc = Mini(repo, repo.module(_MP).functions["encode_connection_type"])
+        outs = [enc(v) for v in _CONNECTION_TYPES]
+        if all(isinstance(o, tuple) for o in outs) and len({len(o) for o in outs}) == 1:
+            n = len(outs[0])
+    except (MiniUndecided, MiniRaised, KeyError):
+        n = None
+    repo.__dict__["_c02_encoder_arity"] = n
+    return n
+
+
+def _stored_by_init(k: ClassInfo, attr: str) -> bool:
+    """some constructor in the MRO stores self.<attr>: it is an instance field, whatever the class body says about the name"""
+    for c in k.mro():
+        i = c.methods.get("__init__")
+        if i is not None and any(isinstance(n, ast.Attribute) and isinstance(n.ctx, ast.Store) and n.attr == attr and isinstance(n.value, ast.Name)
+                                 and n.value.id == "self" for n in walk_no_nested(i.node)):
+            return True
+    return False
+
+
+class _TermMini(Mini):
+    """
+    Mini interpreter over term values.  mode "encode": `self.x` of the instance token is Field(x);  mode "init": `self` is a fresh object
+    whose attribute stores are collected;  mode "decode": parameters are wire terms, constructing a Serializable class yields a _Ctor.
+    Sub-expressions whose meaning depends on a term's length / elements (chunking comprehensions, joins, struct element maps) are handed to
+    the straight-line term evaluator with the current locals as its environment.
+    """
+    mode = "decode"
+    token = None            # the instance token (`self`) of encode / init mode
+    judged: ClassInfo | None = None   # the payload class under analysis (what `cls` stands for)
+
+    def _sub(self, fi: FuncInfo) -> "Mini":
+        sub = super()._sub(fi)
+        sub.mode, sub.token, sub.judged = self.mode, self.token, self.judged
+        return sub
+
+    def _plain(self, v, where) -> None:
+        if not isinstance(v, _TV):
+            super()._plain(v, where)
+
+    def _py(self, f, *a, **k):
+        try:
+            return f(*a, **k)
+        except (MiniUndecided, MiniRaised):
+            raise
+        except (_Ret, _Brk, _Cont):
+            raise
+        except Exception as e:  # noqa: BLE001
+            if _has_tv(list(a)) or _has_tv(k):
+                raise MiniUndecided(f"{getattr(f, '__name__', f)!s} applied to a wire term: {type(e).__name__}: {e}") from e
+            raise MiniRaised(f"{type(e).__name__}: {e}", kind=type(e).__name__) from e
+
+    def _elements(self, v: "_TV"):
+        """the elements of a term of known length: the pair the connection type encoder returns for every documented connection type"""
+        t = v.t
+        if t.op == "call" and t.args and t.args[0] == "encode_connection_type" and len(t.args) == 2:
+            n = _encoder_arity(self.repo)
+            if n is not None:
+                return [_wrap(simplify(T("index", (t, Const(i))))) for i in range(n)]
+        return None
+
+    def _iter(self, v, where):
+        if isinstance(v, _TV):
+            el = self._elements(v)
+            if el is not None:
+                return el
+            raise _Symbolic(f"iteration over {v.t}")
+        return super()._iter(v, where)
+
+    def _lazy_iter(self, v, where):
+        if isinstance(v, _TV):
+            el = self._elements(v)
+            if el is not None:
+                return iter(el)
+            raise _Symbolic(f"iteration over {v.t}")
+        return super()._lazy_iter(v, where)
+
+    def _store(self, t, v, env) -> None:
+        if isinstance(t, (ast.Tuple, ast.List)) and isinstance(v, _TV) and not any(isinstance(x, ast.Starred) for x in t.elts):
+            # a, b = <term>: element i of a tuple-valued term (a struct value, the result of the connection type encoder)
+            for i, x in enumerate(t.elts):
+                self._store(x, _wrap(simplify(T("index", (v.t, Const(i))))), env)
+            return
+        super()._store(t, v, env)
+
+    def _getattr(self, base, attr: str, where):
+        if base is self.token and self.mode == "encode" and attr not in base.attrs and _stored_by_init(base.cls, attr):
+            return _TV(Field(attr))
+        try:
+            return super()._getattr(base, attr, where)
+        except MiniUndecided:
+            if base is self.token and self.mode == "encode" and not attr.startswith("__"):
+                return _TV(Field(attr))
+            raise
+
+    def _call_value(self, f, args: list, kwargs: dict, where):
+        if isinstance(f, _ClsToken):
+            return f(*args, **kwargs)
+        return super()._call_value(f, args, kwargs, where)
+
+    # ---- delegation to the straight-line term evaluator
+    def _delegate(self, e: ast.AST, env: dict):
+        tenv: dict[str, T] = {}
+        for k, v in env.items():
+            if isinstance(k, str) and not k.startswith("\0") and k not in ("self",):
+                try:
+                    tenv[k] = _term(v)
+                except MiniUndecided:
+                    continue
+        fields = None
+        me = env.get("self")
+        if self.mode != "encode" or me is not self.token:
+            fields = {}
+            if isinstance(me, Opaque):
+                for a, v in me.attrs.items():
+                    try:
+                        fields[a] = _term(v)
+                    except MiniUndecided:
+                        continue
+        fi = self.fi if self.fi.node is not None else None
+        if fi is None:
+            raise MiniUndecided(f"symbolic sub-expression `{norm(e)[:50]}` in a constant initialiser")
+        ev = _TermEval(self.repo, fi, tenv, fields)
+        ev._depth = getattr(self, "_call_depth", 0)
+        try:
+            return _wrap(ev.ev(e))
+        except Undecided as u:
+            raise MiniUndecided(str(u)) from u
+
+    def _ev(self, e, env):  # noqa: C901, PLR0911, PLR0912
+        e0 = strip_cast(e)
+        try:
+            return self._ev1(e0, env)
+        except _Symbolic:
+            if isinstance(e0, (ast.Call, ast.ListComp, ast.GeneratorExp, ast.Subscript, ast.BinOp, ast.Tuple, ast.List)):
+                return self._delegate(e0, env)
+            raise
+
+    def _ev1(self, e, env):  # noqa: C901, PLR0911, PLR0912
+        if isinstance(e, ast.Name) and e.id not in env and self.fi.node is not None:
+            k = self.repo.resolve_class_expr(self.fi.module, e)
+            if k is not None and any(c.name == "Serializable" for c in k.mro()):
+                return _ClsToken(k, via_cls=False)
+        if isinstance(e, ast.Attribute) and isinstance(e.value, ast.Name) and e.value.id == "self" and env.get("self") is self.token and self.token is not None:
+            if self.mode == "encode" or e.attr in self.token.attrs:
+                return self._getattr(self.token, e.attr, e)
+        if isinstance(e, ast.UnaryOp) and isinstance(e.op, ast.Not):
+            v = self._ev(e.operand, env)
+            if isinstance(v, _TV):
+                return _TV(T("not", (v.t,)))
+            return not self._truth(v)
+        if isinstance(e, ast.IfExp):
+            c = self._ev(e.test, env)
+            if isinstance(c, _TV):
+                return _TV(T("ifexp", (c.t, _term(self._ev(e.body, env)), _term(self._ev(e.orelse, env)))))
+            return self._ev(e.body if self._truth(c) else e.orelse, env)
+        if isinstance(e, ast.Compare) and len(e.ops) == 1:
+            l, r = self._ev(e.left, env), self._ev(e.comparators[0], env)
+            if isinstance(l, _TV) or isinstance(r, _TV):
+                return _TV(T("cmp", (type(e.ops[0]).__name__, _term(l), _term(r))))
+            if _has_tv(l) or _has_tv(r):
+                raise MiniUndecided(f"comparison `{norm(e)[:50]}` of values holding wire terms")
+        if isinstance(e, ast.Subscript) and not isinstance(e.slice, ast.Slice):
+            base, idx = self._ev(e.value, env), self._ev(e.slice, env)
+            if isinstance(idx, _TV) and isinstance(base, (list, tuple)):
+                return _TV(T("index", (_term(base), idx.t)))              # [A, B][bit]
+            if isinstance(base, _TV):
+                return base[idx]
+            if isinstance(idx, _TV):
+                raise MiniUndecided(f"subscript `{norm(e)[:50]}` with a wire term")
+        if isinstance(e, ast.JoinedStr) or (isinstance(e, ast.BoolOp)):
+            return super()._ev(e, env)
+        return super()._ev(e, env)
+
+    def _call(self, e: ast.Call, env):
+        f = strip_cast(e.func)
+        name = chain(f)
+        # super().__init__(..) / super().to_pack_list(): the next class in the instance's MRO that defines the method, on the same object
+        if isinstance(f, ast.Attribute) and isinstance(f.value, ast.Call) and chain(f.value.func) == "super" and not f.value.args and self.fi.cls is not None:
+            me = env.get(self.fi.params()[0]) if self.fi.params() else None
+            inst = me.cls if isinstance(me, _Obj) else self.fi.cls
+            mro = inst.mro()
+            after = mro[mro.index(self.fi.cls) + 1:] if self.fi.cls in mro else self.fi.cls.mro()[1:]
+            base = next((k for k in after if f.attr in k.methods), None)
+            args, kwargs = self._args(e, env)
+            if base is None or (f.attr == "__init__" and base.name in ("Payload", "Serializable", "object")):
+                if f.attr == "__init__":
+                    return None
+                raise MiniUndecided(f"super().{f.attr}() without a base in /repo")
+            return self._run(base.methods[f.attr], me, *args, **kwargs)
+        if isinstance(f, ast.Name) and isinstance(env.get(f.id), _ClsToken):
+            args, kwargs = self._args(e, env)
+            return env[f.id](*args, **kwargs)
+        if name in _TermEval._KEEP_AS_CALL or (isinstance(f, ast.Attribute) and f.attr in _TermEval._KEEP_AS_CALL):
+            args, kwargs = self._args(e, env)
+            if kwargs:
+                raise MiniUndecided(f"keyword arguments in `{norm(e)[:50]}`")
+            return _TV(T("call", ((name or "").split(".")[-1], *[_term(a) for a in args])))
+        if name in ("bool", "len", "list", "tuple", "pack", "struct.pack", "unpack", "struct.unpack") and not (isinstance(f, ast.Name) and f.id in env):
+            args, kwargs = self._args(e, env)
+            if not kwargs and _has_tv(args):
+                if name == "bool" and len(args) == 1 and isinstance(args[0], _TV):
+                    return _TV(simplify(T("bool", (args[0].t,))))
+                if name in ("pack", "struct.pack", "unpack", "struct.unpack"):
+                    return _TV(T(name.split(".")[-1], tuple(_term(a) for a in args)))
+                if name in ("list", "tuple") and len(args) == 1 and isinstance(args[0], _TV):
+                    t = args[0].t
+                    return args[0] if name == "list" and t.op in ("chunks", "map", "list") else _TV(T("call", (name, t)))
+                if name == "len" and len(args) == 1 and isinstance(args[0], _TV):
+                    return _TV(T("len", (args[0].t,)))
+        try:
+            return super()._call(e, env)
+        except _Symbolic:
+            raise
+        except MiniUndecided as u:
+            # an uninterpreted function of wire terms (a helper that branches on them, a method of a term value, a foreign function): the
+            # application itself is the term - equal to nothing but itself, so it can never prove a field equal
+            try:
+                args, kwargs = self._args(e, env)
+            except (MiniUndecided, MiniRaised):
+                raise u from None
+            recv = None
+            if isinstance(f, ast.Attribute):
+                try:
+                    recv = self._ev(f.value, env)
+                except (MiniUndecided, MiniRaised):
+                    recv = None
+            mutable = any(isinstance(a, (list, dict, set, Opaque)) for a in [*args, *kwargs.values()])
+            if kwargs or mutable or not (_has_tv(args) or isinstance(recv, _TV)) or name is None:
+                raise
+            if isinstance(recv, _TV):
+                return _TV(T("call", ("." + f.attr, recv.t, *[_term(a) for a in args])))
+            return _TV(T("call", (name, *[_term(a) for a in args])))
+
+    def _args(self, e: ast.Call, env):
+        args = []
+        for a in e.args:
+            if isinstance(a, ast.Starred):
+                args.extend(self._iter(self._ev(a.value, env), a))
+            else:
+                args.append(self._ev(a, env))
+        kwargs = {}
+        for k in e.keywords:
+            v = self._ev(k.value, env)
+            if k.arg is None:
+                if not isinstance(v, dict):
+                    raise MiniUndecided("** of a non-dict")
+                kwargs.update(v)
+            else:
+                kwargs[k.arg] = v
+        return args, kwargs
+
+
+def _term_hooks(repo, fi: FuncInfo, judged: ClassInfo):
+    """on_call hook of the term interpreter: constructing a Serializable class of /repo yields a _Ctor (decode mode)"""
+    ser = repo.cls("Serializable", SER)
+
+    def hooks(name, base, args, kwargs):
+        if base is None and name is not None and re.fullmatch(r"[A-Za-z_][\w.]*", name) and name not in ("super",):
+            k = repo.resolve_class_expr(fi.module, ast.parse(name, mode="eval").body)
+            if k is not None and ser in k.mro():
+                return _Ctor(k, False, list(args), dict(kwargs), 0)
+        return NotImplemented
+    return hooks
+
+
+def _guard(what: str, thunk):
+    """run an interpretation; everything that is not a result is `Undecided` (never a verdict)"""
+    try:
+        return thunk()
+    except MiniUndecided as u:
+        raise Undecided(f"{what}: {u}") from u
+    except MiniRaised as r:
+        raise Undecided(f"{what}: the interpreted code raises {r}") from r
+    except RecursionError as r:
+        raise Undecided(f"{what}: recursion") from r
+    except (Undecided, AnalysisError):
+        raise
+    except Exception as x:  # noqa: BLE001  (the fallback interpreter met something it was not built for: no verdict, never a crash)
+        raise Undecided(f"{what}: {type(x).__name__}: {x}") from x
+
+
+def interp_to_pack_list(ctx: Ctx, cls: ClassInfo) -> list[tuple[str, list[T]]]:
+    """eval_to_pack_list by interpretation: cls.to_pack_list run on an instance token whose fields are Field(..) terms."""
+    fi = cls.lookup("to_pack_list")
+    if fi is None:
+        raise Undecided("no to_pack_list")
+
+    def go():
+        m = _TermMini(ctx.repo, fi, _term_hooks(ctx.repo, fi, cls))
+        m.mode, m.judged = "encode", cls
+        m.token = _Obj(cls, {})
+        out = m(m.token)
+        if not isinstance(out, list):
+            raise MiniUndecided(f"to_pack_list returns {out!r}")
+        res = []
+        for entry in out:
+            if not (isinstance(entry, (tuple, list)) and entry and isinstance(entry[0], str)):
+                raise MiniUndecided(f"pack list element {entry!r}")
+            res.append((entry[0], [_term(v) for v in entry[1:]]))
+        return res
+    return _guard(f"{cls.name}.to_pack_list", go)
+
+
+def interp_decode_ctor(ctx: Ctx, cls: ClassInfo, ful: FuncInfo, params: list[str], wire: list[T]):
+    """_decode_ctor by interpretation: (target class, constructed through `cls`, positional terms, keyword terms, line)."""
+    def go():
+        m = _TermMini(ctx.repo, ful, _term_hooks(ctx.repo, ful, cls))
+        m.mode, m.judged = "decode", cls
+
+        make = _ClsToken(cls)
+        a = ful.node.args
+        names = [p.arg for p in a.posonlyargs + a.args]
+        vals = {p: _wrap(t) for p, t in zip(params, wire)}
+        args = [make if p == "cls" else vals[p] for p in names if p == "cls" or p in vals]
+        if len(args) != len(names):
+            raise MiniUndecided("from_unpack_list signature")
+        out = m(*args)
+        if not isinstance(out, _Ctor):
+            raise MiniUndecided(f"from_unpack_list returns {out!r}")
+        return out.cls, out.via_cls, [_term(v) for v in out.args], {k: _term(v) for k, v in out.kwargs.items()}
+    return _guard(f"{cls.name}.from_unpack_list", go)
+
+
+def interp_init_fields(ctx: Ctx, cls: ClassInfo, args: list[T], kwargs: dict[str, T]) -> dict[str, T]:
+    """init_fields by interpretation: the attribute stores of cls.__init__ (and the constructors it chains to) on a fresh object."""
+    fi = cls.lookup("__init__")
+    if fi is None or fi.cls.name in ("Payload", "Serializable", "object"):
+        return {}
+
+    def go():
+        m = _TermMini(ctx.repo, fi, _term_hooks(ctx.repo, fi, cls))
+        m.mode, m.judged = "init", cls
+        m.token = _Obj(cls, {})
+        m(m.token, *[_wrap(t) for t in args], **{k: _wrap(t) for k, t in kwargs.items()})
+        return {a: _term(v) for a, v in m.token.attrs.items()}
+    return _guard(f"{cls.name}.__init__", go)
+
+
+def _pack_list_of(ctx: Ctx, cls: ClassInfo):
+    try:
+        return eval_to_pack_list(ctx, cls)
+    except Undecided as u:
+        try:
+            return interp_to_pack_list(ctx, cls)
+        except Undecided as u2:
+            raise Undecided(f"{u}; interpreted: {u2}") from u2
+
+
+def _init_fields_of(ctx: Ctx, cls: ClassInfo, args: list[T], kwargs: dict[str, T]) -> dict[str, T]:
+    try:
+        return init_fields(ctx, cls, args, kwargs)
+    except Undecided as u:
+        try:
+            return interp_init_fields(ctx, cls, args, kwargs)
+        except Undecided as u2:
+            raise Undecided(f"{u}; interpreted: {u2}") from u2
+
+
 def rule_term_inverse(ctx: Ctx) -> None:
     repo = ctx.repo
     table = serializer_table(ctx)
@@ -1010,13 +1513,24 @@ def rule_term_inverse(ctx: Ctx) -> None:
         fpl = cls.lookup("to_pack_list")
         ful = cls.lookup("from_unpack_list")
         try:
-            packlist = eval_to_pack_list(ctx, cls)
+            packlist = _pack_list_of(ctx, cls)
         except Undecided as u:
             undecided_seen[f"{cls.name}.*"] = str(u)
             continue
         # formats in to_pack_list order == format_list
         fl_expr = cls.lookup_attr("format_list")
-        fl = repo.resolve_const(next(k for k in cls.mro() if "format_list" in k.attrs).module, fl_expr) if fl_expr is not None else NOCONST
+        fl_owner = next((k for k in cls.mro() if "format_list" in k.attrs), None)
+        fl = repo.resolve_const(fl_owner.module, fl_expr) if fl_expr is not None else NOCONST
+        if fl is NOCONST and fl_expr is not None:
+            # computed in the class body (a sum of lists, a table): the list it evaluates to
+            from .c02_packers import _ModuleScope
+            try:
+                v = Mini(repo, _ModuleScope(fl_owner.module, fl_owner))._ev(fl_expr, {})
+            except (MiniUndecided, MiniRaised) as u:
+                undecided_seen[f"{cls.name}.*"] = f"format_list: {u}"
+                continue
+            if isinstance(v, (list, tuple)) and all(isinstance(x, str) for x in v):
+                fl = list(v)
         fmts = [f for f, _ in packlist]
         ctx.check(fl is not NOCONST and list(fl) == fmts, "pack-unpack-inverse", fpl, fpl.node, f"{cls.name}: formats written {fmts} == format_list",
                   f"{cls.name}.to_pack_list writes formats {fmts} but the decoder follows format_list {fl}")
@@ -1047,14 +1561,19 @@ def rule_term_inverse(ctx: Ctx) -> None:
         ev = _TermEval(repo, ful, env)
         try:
             call, argterms, kwterms = _decode_ctor(ev, ful)
+            callee = chain(call.func)
+            target = cls if callee == "cls" else repo.resolve_class_expr(ful.module, call.func)
+            if target is None:
+                raise Undecided(f"constructor {callee} not resolved")
         except Undecided as u:
-            undecided_seen[f"{cls.name}.*"] = str(u)
-            continue
-        callee = chain(call.func)
-        target = cls if callee == "cls" else repo.resolve_class_expr(ful.module, call.func)
-        if target is None:
-            undecided_seen[f"{cls.name}.*"] = f"constructor {callee} not resolved"
-            continue
+            # not one straight-line constructor call: interpret from_unpack_list (locals, helpers, result objects, partial application, **fields)
+            try:
+                target, via_cls, argterms, kwterms = interp_decode_ctor(ctx, cls, ful, params, wire)
+            except Undecided as u2:
+                undecided_seen[f"{cls.name}.*"] = f"{u}; interpreted: {u2}"
+                continue
+            callee = "cls" if via_cls else target.name
+            call = ful.node
         if not (target is cls or callee == "cls"):
             adds = [a for a in ("to_pack_list", "__init__", "format_list") if a in cls.methods or a in cls.attrs]
             if target in cls.mro() and not adds:
@@ -1063,14 +1582,14 @@ def rule_term_inverse(ctx: Ctx) -> None:
                 ctx.check(False, "pack-unpack-inverse", ful, f"{cls.name} constructs {target.name}", f"{cls.name}: from_unpack_list constructs its own class",
                           f"{cls.name}.from_unpack_list constructs {target.name}: fields added by {cls.name} ({adds}) are lost")
         try:
-            fields = init_fields(ctx, target, argterms, kwterms)
+            fields = _init_fields_of(ctx, target, argterms, kwterms)
         except Undecided as u:
             undecided_seen[f"{cls.name}.*"] = str(u)
             continue
         # which constructor normalisation does each field have (for the idempotent-mod rewrite)
         def init_of_field(f: str, cls=cls):
             try:
-                probe = init_fields(ctx, cls, [T("param", (i,)) for i in range(40)], {})
+                probe = _init_fields_of(ctx, cls, [T("param", (i,)) for i in range(40)], {})
             except Undecided:
                 return None
             t = probe.get(f)
@@ -1087,7 +1606,7 @@ def rule_term_inverse(ctx: Ctx) -> None:
             if is_const(n):
                 # a field this class's own constructor always sets to that very constant (not settable through it)
                 try:
-                    probe = init_fields(ctx, cls, [T("param", (i,)) for i in range(40)], {})
+                    probe = _init_fields_of(ctx, cls, [T("param", (i,)) for i in range(40)], {})
                 except Undecided:
                     probe = {}
                 if probe.get(f) == n:
@@ -1131,6 +1650,37 @@ def _walk_terms(t):
 
 
 # ------------------------------------------------------------------------------------------ VariablePayload shape
+def _evaluated_schema(repo, c: ClassInfo):
+    """(names, formats) of a VariablePayload whose `names` / `format_list` are computed in the class body; None when they cannot be evaluated."""
+    from .c02_packers import _ModuleScope
+    out = []
+    for attr in ("names", "format_list"):
+        owner = next((k for k in c.mro() if attr in k.attrs), None)
+        if owner is None:
+            return None
+        try:
+            v = Mini(repo, _ModuleScope(owner.module, owner))._ev(owner.attrs[attr], {})
+        except (MiniUndecided, MiniRaised):
+            return None
+        if not isinstance(v, (list, tuple)):
+            return None
+        out.append(list(v))
+    names, raw = out
+    fmts: list = []
+    for x in raw:
+        if isinstance(x, str):
+            fmts.append(x)
+        elif isinstance(x, list) and len(x) == 1 and getattr(x[0], "_mini_cls", None) is not None:
+            fmts.append(("list", x[0]._mini_cls))
+        elif getattr(x, "_mini_cls", None) is not None:
+            fmts.append(("nested", x._mini_cls))
+        else:
+            return None
+    if not all(isinstance(nm, str) for nm in names):
+        return None
+    return names, fmts
+
+
 def rule_vp_shape(ctx: Ctx) -> None:
     repo = ctx.repo
     table = serializer_table(ctx)
@@ -1141,21 +1691,28 @@ def rule_vp_shape(ctx: Ctx) -> None:
         if "names" not in c.attrs and "format_list" not in c.attrs:
             continue
         ne, fe = c.lookup_attr("names"), c.lookup_attr("format_list")
-        if ne is None or fe is None or not isinstance(fe, (ast.List, ast.Tuple)) or not isinstance(ne, (ast.List, ast.Tuple)):
+        if ne is None or fe is None:
             continue
+        if not isinstance(fe, (ast.List, ast.Tuple)) or not isinstance(ne, (ast.List, ast.Tuple)) or any(isinstance(x, ast.Starred) for x in [*fe.elts, *ne.elts]):
+            # not plain displays (a sum of lists, a comprehension over a table, `*COMMON`): the value the class body computes, evaluated
+            got = _evaluated_schema(repo, c)
+            if got is None:
+                continue
+            names, fmts = got
+        else:
+            names = [const_value(x) for x in ne.elts]
+            fmts = []
+            for x in fe.elts:
+                cv = const_value(x)
+                if isinstance(cv, str):
+                    fmts.append(cv)
+                elif isinstance(x, ast.List) and len(x.elts) == 1:
+                    k = repo.resolve_class_expr(c.module, x.elts[0])
+                    fmts.append(("list", k))
+                else:
+                    k = repo.resolve_class_expr(c.module, x)
+                    fmts.append(("nested", k))
         n += 1
-        names = [const_value(x) for x in ne.elts]
-        fmts = []
-        for x in fe.elts:
-            cv = const_value(x)
-            if isinstance(cv, str):
-                fmts.append(cv)
-            elif isinstance(x, ast.List) and len(x.elts) == 1:
-                k = repo.resolve_class_expr(c.module, x.elts[0])
-                fmts.append(("list", k))
-            else:
-                k = repo.resolve_class_expr(c.module, x)
-                fmts.append(("nested", k))
         need = sum(8 if f == "bits" else 1 for f in fmts)
         ctx.check(len(names) == need and len(set(names)) == len(names), "vp-shape", c.where, c.node, f"{c.name}: {len(names)} names for formats needing {need}",
                   f"{c.name}: names has {len(names)} entries but format_list consumes {need} (8 per 'bits'): fields shift or raise at construction")
@@ -1167,7 +1724,7 @@ def rule_vp_shape(ctx: Ctx) -> None:
                 ctx.check(f[1] is not None and f[1].is_subclass_of("Serializable"), "vp-shape", c.where, c.node, f"{c.name}: nested format resolves to a Serializable",
                           f"{c.name}: a nested format entry does not resolve to a Serializable class")
             else:
-                known = f in table or f in extras
+                known = f in table or f in extras or "*" in extras
                 ctx.check(known, "vp-shape", c.where, c.node, f"{c.name}: format '{f}' registered", f"{c.name}: format '{f}' is not registered by any serializer")
                 if f in extras:
                     ov = extras[f][0]
@@ -1541,17 +2098,36 @@ def _sym_struct(name, base, args, kwargs):
     return NotImplemented
 
 
+def _has_sym(v, depth: int = 0) -> bool:
+    if isinstance(v, (_SymBytes, _Sym)):
+        return True
+    return depth < 4 and isinstance(v, (tuple, list)) and any(_has_sym(x, depth + 1) for x in v)
+
+
 class _SymMini(Mini):
     def _plain(self, v, where) -> None:
         if not isinstance(v, _SymBytes):
             super()._plain(v, where)
 
+    def _py(self, f, *a, **k):
+        try:
+            return f(*a, **k)
+        except (MiniUndecided, MiniRaised, _Ret, _Brk, _Cont):
+            raise
+        except Exception as e:  # noqa: BLE001
+            if _has_sym(list(a)) or _has_sym(list(k.values())):
+                # a Python operation that does not know the symbolic layout objects: no verdict (never "the codec raises")
+                raise MiniUndecided(f"{getattr(f, '__name__', f)!s} applied to a symbolic byte string: {type(e).__name__}: {e}") from e
+            raise MiniRaised(f"{type(e).__name__}: {e}", kind=type(e).__name__) from e
+
     def _call(self, e, env):
         f = e.func
         if isinstance(f, ast.Attribute) and f.attr == "join" and len(e.args) == 1 and not e.keywords:
             sep = self._ev(f.value, env)
-            if sep == b"":
+            if isinstance(sep, bytes) and sep == b"":
                 parts = self._ev(e.args[0], env)
+                if not isinstance(parts, (list, tuple)):
+                    parts = self._iter(parts, e)          # a generator / chain / map of parts: the same parts, in order
                 if isinstance(parts, (list, tuple)) and any(isinstance(x, _SymBytes) for x in parts):
                     out = _SymBytes([])
                     for x in parts:
@@ -1874,7 +2450,7 @@ def run(ctx: Ctx) -> None:
     if _table_is_interpreted(ctx) and hasattr(c20, "registered_formats"):
         # the table is not one plain dict display: hand the shared rule the exact set of registered names (the table __init__ computes plus
         # the add_packer registrations) instead of its syntactic reading of the constructor; restored afterwards
-        exact = set(serializer_table(ctx)) | set(extra_packers(ctx))
+        exact = set(serializer_table(ctx)) | (set(extra_packers(ctx)) - {"*"})
         saved = c20.registered_formats
         c20.registered_formats = lambda _ctx: set(exact)
         try:
@@ -1974,6 +2550,12 @@ WITNESSES = [
          "new": "        unpack_list: list = []\n        plans = self.__dict__.setdefault(\"_plans\", {})\n        for fmt in serializable.format_list:\n            try:\n"
                 "                if isinstance(fmt, str) and fmt not in self._plans:\n                    self._plans[fmt] = self._packers[fmt]\n"
                 "                offset = (self._plans[fmt] if isinstance(fmt, str) else self._packers[fmt]).unpack(data, offset, unpack_list)\n"}]},
+    {"name": "node-list item packer consumes a node but does not deliver it (port 0 filtered out)", "file": "ipv8/dht/payload.py", "rule": "packer-symmetry",
+     "old": "        unpack_list.append(Node(cast(\"bytes\", key), address=cast(\"Address\", address)))\n        return offset",
+     "new": "        if cast(\"Address\", address)[1] != 0:\n            unpack_list.append(Node(cast(\"bytes\", key), address=cast(\"Address\", address)))\n        return offset"},
+    {"name": "raw delivers nothing for an empty rest", "file": "ipv8/messaging/serialization.py", "rule": "packer-symmetry",
+     "old": "        unpack_list.append(data[offset:])\n        return len(data)",
+     "new": "        if offset < len(data):\n            unpack_list.append(data[offset:])\n        return len(data)"},
     {"name": "unwrap puts circuit id first", "file": _AP, "rule": "cell-codec",
      "old": "                         self.message[0:1],\n                         pack(\"!I\", self.circuit_id),\n                         self.message[1:]])",
      "new": "                         pack(\"!I\", self.circuit_id),\n                         self.message])"},
